@@ -45,8 +45,13 @@ func low(v uint64, w int32) uint64 {
 	return v & (uint64(1)<<uint(w) - 1)
 }
 
-func checkJoin(keep []uint64, w int32) *vk.Failure {
-	values := append(make([]uint64, 0, len(keep)), keep...) // private copy for the code under test
+func checkJoin(keep []uint64, w int32) (f *vk.Failure) {
+	values := append(make([]uint64, 0, len(keep)), keep...) // private copy for the code under test ...
+	reused := scratch.Reuse(vk.SumU64(keep) + uint64(w))
+	if reused {
+		values = scratch.U64(keep) // ... or a reused buffer with guarded spare capacity
+	}
+	defer func() { f = spare(f, reused) }()
 	var r []uint64
 	if f := vk.Try(fmt.Sprintf("Join(%d values, w=%d)", len(values), w), func() { r = bitmap.Join(values, w) }); f != nil {
 		return f
@@ -100,8 +105,24 @@ func checkGetw(keep []uint64, w int32) *vk.Failure {
 	return nil
 }
 
-func checkSlice(keep []uint64, from, to int32) *vk.Failure {
-	words := append(make([]uint64, 0, len(keep)), keep...) // private copy for the code under test
+var scratch vk.Scratch
+
+func spare(f *vk.Failure, reused bool) *vk.Failure {
+	if f == nil && reused {
+		if msg := scratch.Check(); msg != "" {
+			return vk.Failf("argument-spare-capacity-written", "%s", msg)
+		}
+	}
+	return f
+}
+
+func checkSlice(keep []uint64, from, to int32) (f *vk.Failure) {
+	words := append(make([]uint64, 0, len(keep)), keep...) // private copy for the code under test ...
+	reused := scratch.Reuse(vk.SumU64(keep) + uint64(from)*3 + uint64(to))
+	if reused {
+		words = scratch.U64(keep) // ... or a reused buffer with guarded spare capacity
+	}
+	defer func() { f = spare(f, reused) }()
 	var r []uint64
 	if f := vk.Try(fmt.Sprintf("Slice(%d words, %d, %d)", len(words), from, to), func() { r = bitmap.Slice(words, from, to) }); f != nil {
 		return f
@@ -276,6 +297,23 @@ func TestGrid(t *testing.T) {
 				}
 			}
 		}
+	}
+	// very long value lists (size thresholds of any batched / parallel implementation)
+	for _, n := range []int{65535, 65536, 65537, 65543, 100001} {
+		for _, w := range widths {
+			vals := make(vk.Words, n)
+			for i := range vals {
+				vals[i] = vk.Mix(uint64(n)*131 + uint64(i) + uint64(w))
+			}
+			checker.Run(t, Case{Op: "join", W: w, Values: vals, Class: "grid-long-list"})
+		}
+	}
+	big := make(vk.Words, 1<<14+3)
+	for i := range big {
+		big[i] = vk.Mix(uint64(i) * 7)
+	}
+	for _, r := range [][2]int32{{0, int32(64 * len(big))}, {1, int32(64*len(big)) - 1}, {63, 64*1024 + 63}, {5, 64*4096 + 5}, {64 * 100, 64 * 16000}} {
+		checker.Run(t, Case{Op: "slice", Words: big, From: r[0], To: r[1], Class: "grid-long-bitmap"})
 	}
 	vk.MarkExhaustive("Slice: 12 bitmaps of <= 3 words x all (from,to); Join: all widths x lengths 0..20 x 3 value styles; Getw: all widths on those results at every index")
 }
